@@ -5,7 +5,7 @@ CONSTANTS
   ByteStrings <- BytesQuick
   NumSeqs <- NumsThorough
   NewObjs <- MCNewObjs
-  MaxDepth = 4
+  MaxDepth = 5
   Starts <- StartsRes
   Allowed = {"delete.array.dup", "delete.streamdict", "delete.trailer", "resources.shadow", "contents.refToArray"}
   Emit = TRUE
